@@ -87,8 +87,12 @@ def K.last? : K → Option Nat
   | .loneRange a b => some (max a b)
   | .list f r => some ((r.getLast?.getD f).hi)
 
-/-- the lines offered to the match part: denoted and not blank -/
-def offered (k : K) (recs : List (List String)) : List Nat :=
-  (List.range recs.length).filter (fun i => k.den i && !(recs.getD i []).isEmpty)
+/-- the lines offered to the match part: the records at denoted positions that are not blank
+    (positions counted from `i` for the first record of the list) -/
+def offeredFrom (den : Nat → Bool) (i : Nat) : List (List String) → List Nat
+  | [] => []
+  | r :: rs => (if den i && !r.isEmpty then [i] else []) ++ offeredFrom den (i + 1) rs
+
+def offered (k : K) (recs : List (List String)) : List Nat := offeredFrom k.den 0 recs
 
 end Spec.Scan
